@@ -9,7 +9,7 @@ Line-protocol driver for the C01 model (model files only).  One program per line
   T  ::= T<k> atom…          atom ::= i | s | b | n | o | c<id>
   E  ::= I n | S k c… | B 0|1 | N | V x | A E f | M E m k E… | F f k E… | C c k E… | Q x c | Z x neg
        | ! E | & E E | "|" E E | = E E | + E E | - E E | < E E | P k E
-  ST ::= pass | D x E | X x E | Y x E | W E f E | E E | R E | IF E ST ST | WH E ST | SQ ST ST | BR | CT
+  ST ::= pass | D x E | X x E | Y x E | W E f E | E E | R E | IF E ST ST | WH E ST | SQ ST ST | BR | CT | RS k | TR ST k kinds… ST ST ST 0|1
   FN ::= fn <k> T… <k> T… T ST
 
 Output, one line:  `wf=<0|1> tc=<ok|type k|unsupported k|hole k|stuck k|fuel> tm=<k>:<atoms>;… || <call>;;<call>…`
@@ -87,6 +87,11 @@ partial def pStmt : Parser Stmt
     let (c, r) ← pExpr r; let (t, r) ← pStmt r; let (e, r) ← pStmt r; pure (.ite c t e, r)
   | "WH" :: r => do let (c, r) ← pExpr r; let (b, r) ← pStmt r; pure (.while c b, r)
   | "SQ" :: r => do let (a, r) ← pStmt r; let (b, r) ← pStmt r; pure (.seq a b, r)
+  | "RS" :: r => do let (k, r) ← pNat r; pure (.raise k, r)
+  | "TR" :: r => do
+    let (b, r) ← pStmt r; let (ks, r) ← pCounted pNat r; let (h, r) ← pStmt r; let (e, r) ← pStmt r
+    let (f, r) ← pStmt r; let (hf, r) ← pNat r
+    pure (.tryS b ks h e f (hf != 0), r)
   | "BR" :: r => some (.brk, r)
   | "CT" :: r => some (.cont, r)
   | _ => none
@@ -146,7 +151,7 @@ def showVal (h : Heap) : Val → String
 
 def showFail : Fail → String
   | .typeError => "typeError" | .attrError => "attrError" | .unbound => "unbound"
-  | .stuck => "stuck" | .timeout => "timeout"
+  | .stuck => "stuck" | .timeout => "timeout" | .exc k => s!"exc {k}"
 
 def showLog (st : State) : String :=
   ",".intercalate (st.log.reverse.map fun p => s!"{p.1}={showVal st.heap p.2}")
